@@ -83,6 +83,11 @@ PROPS = {
         "mc": L0_QUICK + L0_THOROUGH,
         "drivers": [drv("sign", "debug"), drv("sign", "release", tiers=T)],
     },
+    "C16": {
+        "mc": [],
+        "drivers": [],
+        "custom": None,   # set below (tools/c16.py)
+    },
 }
 
 # which properties own the value rule of an operation (a BAD event is a violation only for an owner)
@@ -134,3 +139,6 @@ MANIFEST_TEXT = {
     },
 }
 NOT_APPLICABLE = {}
+
+import c16 as _c16  # noqa: E402
+PROPS["C16"]["custom"] = _c16.run
